@@ -10,6 +10,7 @@ struct EmcyRun : NodeEnv {
     int m = M_PREOP; std::vector<std::pair<uint8_t, uint16_t>> tbl; int depth = 4; bool has1003 = true;
     std::vector<bool> act; std::vector<uint32_t> hist;   // newest first
     EmcyRun(const Plan &p, Cov &c, bool vb) : NodeEnv(p, c, vb) {}
+    bool pendingNest = false; bool tpdo1001 = false, nestReal = false, nestFired = false, nestSet = false; size_t nestErr = 0;   // application code in COPdoTransmit: sets / clears another emergency
     uint8_t reg() { uint8_t r = 0; for (size_t i = 0; i < act.size(); i++) if (act[i]) { r |= 1; if (tbl[i].first) r |= (uint8_t)(1u << tbl[i].first); } return r; }
     int cnt() { int n = 0; for (bool b : act) n += b; return n; }
     void build() {
@@ -20,6 +21,9 @@ struct EmcyRun : NodeEnv {
         add_mandatory(specs, 1);
         add_typed(specs, T_EMCYHIST, 0x1003, 0, CO_OBJ_____RW, 0); for (int i = 1; i <= depth; i++) add_typed(specs, T_EMCYHIST, 0x1003, (uint8_t)i, (uint8_t)(CO_OBJ_____R_ | (i & 1 ? CO_OBJ_D_____ : 0)), 0);
         add_typed(specs, T_EMCYID, 0x1014, 0, CO_OBJ__N__RW, plan.c("cobvalid", 1) ? 0x80u : 0x80000080u);
+        // 'tpdo1001': the error register is an asynchronous PDO signal mapped into an event-driven TPDO (a status PDO): every change of 1001h transmits it - and runs COPdoTransmit - in the middle of the emergency update
+        tpdo1001 = plan.c("tpdo1001", 0) != 0; if (tpdo1001) { for (auto &sp : specs) if (sp.idx == 0x1001) sp.flags = CO_OBJ___APR_; add_tpdo(specs, 0, 0x40000180u + nodeId, 254, 0, 0, {CO_LINK(0x1001, 0, 8)}, false); cov.hit("error-register-mapped-into-a-status-tpdo");
+            w.onPdoTransmit = [this](const Frame &) { if (!nestReal) return; nestReal = false; nestFired = true; if (nestSet) COEmcySet(&N()->Emcy, (uint8_t)nestErr, nullptr); else COEmcyClr(&N()->Emcy, (uint8_t)nestErr); }; }
         NodeCfg cfg; cfg.nodeId = nodeId; cfg.freq = freq; cfg.tmrNum = 4;
         w.build(0, cfg, specs, {}, tbl); w.init(0); w.start(0);
         if (CONodeGetErr(N()) != CO_ERR_NONE) fail("setup/node-error", "node reports an error after initialisation");
@@ -28,7 +32,7 @@ struct EmcyRun : NodeEnv {
     bool mayEmit() { return cobValid() && (m == M_PREOP || m == M_OP); }
     // frames of this operation vs expected list
     void checkFrames(size_t mk, const std::vector<Frame> &exp, const char *what) {
-        std::vector<Frame> got; for (size_t i = mk; i < w.evs.size(); i++) { const Ev &e = w.evs[i]; if ((e.kind == EV_TX || e.kind == EV_TXFAIL) && e.f.id != 0x580u + nodeId && e.f.id != 0x700u + nodeId) { got.push_back(e.f); cov.frames_out++; } }
+        std::vector<Frame> got; for (size_t i = mk; i < w.evs.size(); i++) { const Ev &e = w.evs[i]; if ((e.kind == EV_TX || e.kind == EV_TXFAIL) && e.f.id != 0x580u + nodeId && e.f.id != 0x700u + nodeId && !(tpdo1001 && e.f.id == 0x180u + nodeId)) { got.push_back(e.f); cov.frames_out++; } }
         if (got.size() != exp.size()) { std::string g = got.empty() ? "" : " first " + got[0].str(); fail(got.size() > exp.size() ? (exp.empty() && !mayEmit() ? (cobValid() ? "emcy/frame-in-wrong-nmt-state" : "emcy/frame-with-invalid-cobid") : "emcy/unexpected-frame") : "emcy/missing-frame", std::to_string(got.size()) + " EMCY frames during " + what + ", expected " + std::to_string(exp.size()) + g + " (mode " + std::to_string(m) + ", 1014h " + hex(w.raw(0, 0x1014, 0)) + ")"); return; }
         for (size_t i = 0; i < got.size(); i++) if (!(got[i] == exp[i])) { fail(got[i].id != exp[i].id ? "emcy/frame-id" : got[i].d[2] != exp[i].d[2] ? "emcy/frame-register" : (got[i].d[0] != exp[i].d[0] || got[i].d[1] != exp[i].d[1]) ? "emcy/frame-code" : "emcy/frame-content", std::string("frame ") + std::to_string(i) + " during " + what + ": got " + got[i].str() + ", expected " + exp[i].str()); return; }
         cov.hit("frames-checked", exp.size());
@@ -47,7 +51,8 @@ struct EmcyRun : NodeEnv {
             int64_t cnt = std::min<int64_t>(o.arg(1), 600); cov.hit("long-run-of-activations"); if (cnt >= 256) { cov.hit("run-of-256-or-more-activations"); nontrivial = true; }
             for (int64_t i = 0; i < cnt && v.ok; i++) { Op st("set", {o.arg(0), (int64_t)(i & 1), (int64_t)(i * 7 & 0xFFFF)}); st.b = {(uint8_t)i, 2, 3, 4, 5}; op(st); if (v.ok) op(Op("clr", {o.arg(0)})); if (v.ok && (i % 64 == 63 || i + 1 == cnt)) for (int q = 0; q <= depth && v.ok; q += (depth > 16 && i + 1 != cnt) ? 17 : 1) op(Op("rd1003", {(int64_t)q})); }
             return; }
-        size_t mk = w.mark(); std::vector<Frame> exp; bool frames = true;
+        size_t mk = w.mark(); if (pendingNest && (k == "set" || k == "clr")) { pendingNest = false; size_t e0 = (size_t)o.arg(0) % tbl.size(); if (e0 != nestErr) nestReal = true; }   // armed for exactly this operation, for another error than the one it handles
+        std::vector<Frame> exp; bool frames = true;
         if (k == "set") {
             size_t e = (size_t)o.arg(0) % tbl.size(); bool usr = o.arg(1) != 0; CO_EMCY_USR u; u.Hist = (uint16_t)o.arg(2); for (int i = 0; i < 5; i++) u.Emcy[i] = i < (int)o.b.size() ? o.b[(size_t)i] : 0;
             bool was = act[e]; w.cur = 0; COEmcySet(&N()->Emcy, (uint8_t)e, usr ? &u : nullptr);
@@ -60,6 +65,7 @@ struct EmcyRun : NodeEnv {
         else if (k == "restart") {   // the application restarts the stack on the same node memory: CONodeStop, CONodeInit, CONodeStart - a fresh start: no active error, register clear, empty history
             w.cur = 0; CONodeStop(N()); S().rx.clear(); w.setraw(0, 0x1001, 0, 0); for (int q = 0; q <= depth; q++) if (w.ospec(0, 0x1003, (uint8_t)q)) w.setraw(0, 0x1003, (uint8_t)q, 0);   /* the dictionary RAM belongs to the application: its start-up code re-initialises it, CONodeInit does not */
             w.init(0); w.start(0); (void)CONodeGetErr(N()); m = M_PREOP; for (size_t i = 0; i < act.size(); i++) act[i] = false; hist.clear(); cov.hit("restart-on-same-memory"); nontrivial = true; frames = false; }
+        else if (k == "txemcy") { if (!tpdo1001) return; nestSet = o.arg(0) != 0; nestErr = (size_t)o.arg(1) % tbl.size(); pendingNest = true; return; }
         else if (k == "sendfail") { S().sendFail = (int)o.arg(0); cov.hit("F5-send-failure-armed"); return; }
         else if (k == "rd1001") { if (m != M_PREOP && m != M_OP) return; uint32_t val = 0; uint32_t ab = sdoRead(0x1001, 0, val); if (ab != 0 || val != reg()) fail("emcy/register-sdo", "SDO read of 1001h gives " + hex(val) + " (abort " + hex(ab) + "), model " + hex(reg())); }
         else if (k == "rd1003") {
@@ -72,6 +78,13 @@ struct EmcyRun : NodeEnv {
         else if (k == "wr1003") { if (m != M_PREOP && m != M_OP) return; uint8_t val = (uint8_t)o.arg(0); std::vector<uint8_t> img = w.image(0); uint32_t ab = sdoWrite(0x1003, 0, val, 1); if (val == 0) { if (ab != 0) fail("emcy/history-clear-refused", "write 0 to 1003h:0 refused with " + hex(ab)); else { hist.clear(); cov.hit("history-cleared"); } } else { if (ab == 0 || ab == 0xFFFFFFFFu) fail("emcy/history-nonzero-write-accepted", "write " + std::to_string(val) + " to 1003h:0 answered " + hex(ab)); else if (w.image(0) != img) fail("emcy/history-refused-write-changed", "refused write to 1003h:0 changed the dictionary"); cov.hit("history-nonzero-write"); } }
         else if (k == "w1014") { if (m != M_PREOP && m != M_OP) return; bool valid = o.arg(0) != 0; uint32_t nv = (0x80u + nodeId) | (valid ? 0 : 0x80000000u); uint32_t ab = sdoWrite(0x1014, 0, nv, 4); if (ab != 0) fail("emcy/cobid-write-refused", "valid-bit toggle of 1014h refused with " + hex(ab)); cov.hit(valid ? "cobid-validated" : "cobid-invalidated"); }
         safety();
+        if (nestFired && v.ok) {   // the status TPDO went out inside this operation and its transmit callback set / cleared another emergency: a transition inside a transition. Order of the two frames and of the two history
+            nestFired = false; cov.hit("emergency-set-or-cleared-from-inside-the-transmit-callback"); nontrivial = true;   // entries is the implementation's; the number of frames, the states, the register and the count are not
+            bool trans = nestSet ? !act[nestErr] : act[nestErr]; bool emit = mayEmit(); act[nestErr] = nestSet; size_t n = 0; for (size_t i = mk; i < w.evs.size(); i++) { const Ev &e = w.evs[i]; if ((e.kind == EV_TX || e.kind == EV_TXFAIL) && e.f.id == 0x80u + nodeId) n++; }
+            size_t want = exp.size() + (trans && emit ? 1 : 0); if (n != want) { fail(n > want ? "emcy/unexpected-frame" : "emcy/missing-frame", std::to_string(n) + " EMCY frames during " + k + " with a nested transition, expected " + std::to_string(want)); return; }
+            frames = false; hist.clear(); uint32_t fill = 0; if (sdoRead(0x1003, 0, fill) == 0) for (uint32_t i = 1; i <= fill && i <= (uint32_t)depth; i++) { uint32_t e2 = 0; if (sdoRead(0x1003, (uint8_t)i, e2) == 0) hist.push_back(e2); }
+        }
+        nestReal = false;
         if (frames && v.ok) checkFrames(mk, exp, k.c_str());
         invariants(k.c_str());
     }
@@ -88,6 +101,7 @@ struct EmcyRun : NodeEnv {
 
 Plan gen_emcy(Rng &r, bool thorough) {
     Plan p; p.cfg["nodeid"] = r.pick<int64_t>({1, 5, 127}); bool deep = r.chance(1, 25); p.cfg["depth"] = deep ? r.pick<int64_t>({129, 200, 254, 128}) : r.range(1, 8);   // CiA 301 allows up to 254 entries p.cfg["cobvalid"] = r.chance(5, 6);
+    bool tp = r.chance(1, 5); p.cfg["tpdo1001"] = tp;
     int ne = r.chance(1, 5) ? (int)r.pick<int64_t>({9, 17, 25, 32}) : (int)r.range(1, 6); bool shared = r.chance(1, 2);   // tables that span several bytes of the error storage (builds with a small CO_EMCY_N cut them)
     for (int i = 0; i < ne; i++) p.ops.push_back(Op("err", {shared ? r.pick<int64_t>({1, 1, 2, 0, 4}) : r.range(0, 7), (int64_t)(0x1000 * (1 + r.below(15)) + r.below(256))}));
     int n = (int)r.range(3, thorough ? 60 : 30);
@@ -101,6 +115,7 @@ Plan gen_emcy(Rng &r, bool thorough) {
         else if (c < 20) p.ops.push_back(Op("rd1003", {deep ? (int64_t)r.below(256) : (int64_t)r.below(10)}));
         else if (c == 20) p.ops.push_back(Op("wr1003", {r.chance(1, 2) ? 0 : r.range(1, 255)}));
         else if (c < 23) p.ops.push_back(Op("w1014", {(int64_t)r.below(2)}));
+        else if (tp && r.chance(1, 2)) { p.ops.push_back(Op("nmt", {1})); p.ops.push_back(Op("txemcy", {(int64_t)r.below(2), (int64_t)r.below((uint32_t)ne)})); if (r.chance(1, 2)) p.ops.push_back(Op("set", {(int64_t)r.below((uint32_t)ne), 0, 0})); else p.ops.push_back(Op("clr", {(int64_t)r.below((uint32_t)ne)})); }
         else p.ops.push_back(Op("sendfail", {r.range(1, 2)}));
         if (r.chance(1, 300)) p.ops.push_back(Op("cycles", {(int64_t)r.below((uint32_t)ne), r.pick<int64_t>({130, 255, 256, 257, 300, 520})}));
     }
